@@ -536,11 +536,24 @@ where
             .sample_iter(StandardNormal)
             .take(dim)
             .collect();
+        #[cfg(feature = "verif")]
+        let mom_0_data: Vec<T> = crate::verif::tap_vec("nuts.init_momentum", mom_0_data);
         let mom_0 = Tensor::<B, 1>::from_data(mom_0_data.as_slice(), &B::Device::default());
         if T::abs(self.epsilon + T::one()) <= T::epsilon() {
             self.epsilon = find_reasonable_epsilon(self.position.clone(), mom_0, &self.target);
         }
         self.mu = T::ln(T::from(10).unwrap() * self.epsilon);
+        #[cfg(feature = "verif")]
+        crate::verif::rec(
+            "nuts.init",
+            &[
+                crate::verif::f(self.epsilon),
+                crate::verif::f(self.mu),
+                self.m as f64,
+                n_collect as f64,
+                n_discard as f64,
+            ],
+        );
         (dim, sample)
     }
 
@@ -555,13 +568,31 @@ where
             .sample_iter(StandardNormal)
             .take(dim)
             .collect::<Vec<T>>();
+        #[cfg(feature = "verif")]
+        let mom_0 = crate::verif::tap_vec("nuts.momentum", mom_0);
+        #[cfg(feature = "verif")]
+        let verif_epsilon_used = self.epsilon;
         let mom_0 = Tensor::<B, 1>::from_data(mom_0.as_slice(), &B::Device::default());
         let (ulogp, grad) = self.target.unnorm_logp_and_grad(self.position.clone());
         let joint = ulogp.clone() - (mom_0.clone() * mom_0.clone()).sum() * 0.5;
         let joint =
             T::from_f64(joint.into_scalar().to_f64()).expect("successful conversion from 64 to T");
         let exp1_obs = self.rng.sample(Exp1);
+        #[cfg(feature = "verif")]
+        let exp1_obs: T = crate::verif::tap_scalar("nuts.exp1", exp1_obs);
         let logu = joint - exp1_obs;
+        #[cfg(feature = "verif")]
+        {
+            let mut v = vec![
+                crate::verif::f(joint),
+                crate::verif::f(logu),
+                crate::verif::f(verif_epsilon_used),
+                ulogp.clone().into_scalar().to_f64(),
+            ];
+            v.extend(crate::verif::tensor_to_f64(&self.position));
+            v.extend(crate::verif::tensor_to_f64(&grad));
+            crate::verif::rec("nuts.start", &v);
+        }
 
         let mut position_minus = self.position.clone();
         let mut position_plus = self.position.clone();
@@ -577,7 +608,11 @@ where
 
         while s {
             let u_run_1: T = self.rng.random::<T>();
+            #[cfg(feature = "verif")]
+            let u_run_1: T = crate::verif::tap_scalar("nuts.dir_u", u_run_1);
             let v = (2 * (u_run_1 < T::from(0.5).unwrap()) as i8) - 1;
+            #[cfg(feature = "verif")]
+            crate::verif::rec("nuts.dir", &[v as f64, j as f64]);
 
             let (position_prime, n_prime, s_prime) = {
                 if v == -1 {
@@ -658,6 +693,22 @@ where
                     / T::from(n).expect("successful conversion of n from usize to T"),
             );
             let u_run_2 = self.rng.random::<T>();
+            #[cfg(feature = "verif")]
+            let u_run_2: T = crate::verif::tap_scalar("nuts.accept_u", u_run_2);
+            #[cfg(feature = "verif")]
+            {
+                let mut v = vec![
+                    v as f64,
+                    j as f64,
+                    n_prime as f64,
+                    s_prime as i32 as f64,
+                    n as f64,
+                    crate::verif::f(alpha),
+                    n_alpha as f64,
+                ];
+                v.extend(crate::verif::tensor_to_f64(&position_prime));
+                crate::verif::rec("nuts.doubling", &v);
+            }
             if s_prime && (u_run_2 < tmp) {
                 self.position = position_prime;
             }
@@ -671,6 +722,18 @@ where
                     mom_plus.clone(),
                 );
             j += 1
+        }
+        #[cfg(feature = "verif")]
+        {
+            let mut v = vec![
+                crate::verif::f(alpha),
+                n_alpha as f64,
+                crate::verif::f(verif_epsilon_used),
+                j as f64,
+                n as f64,
+            ];
+            v.extend(crate::verif::tensor_to_f64(&self.position));
+            crate::verif::rec("nuts.end", &v);
         }
 
         let mut eta =
@@ -688,7 +751,168 @@ where
         } else {
             self.epsilon = self.epsilon_bar;
         }
+        #[cfg(feature = "verif")]
+        crate::verif::rec("nuts.adapt", &self.verif_adapt_state());
     }
+}
+
+#[cfg(feature = "verif")]
+impl<T, B, GTarget> NUTSChain<T, B, GTarget>
+where
+    T: Float,
+    B: AutodiffBackend,
+{
+    /// Verification-only accessor: `[m, epsilon, epsilon_bar, h_bar, mu, n_discard, target_accept_p]`.
+    pub fn verif_adapt_state(&self) -> [f64; 7] {
+        let f = crate::verif::f::<T>;
+        [
+            self.m as f64,
+            f(self.epsilon),
+            f(self.epsilon_bar),
+            f(self.h_bar),
+            f(self.mu),
+            self.n_discard as f64,
+            f(self.target_accept_p),
+        ]
+    }
+
+    /// Verification-only setter of the adaptation state (`None` leaves a field unchanged).
+    pub fn verif_set_adapt_state(
+        &mut self,
+        m: Option<usize>,
+        epsilon: Option<T>,
+        epsilon_bar: Option<T>,
+        h_bar: Option<T>,
+        mu: Option<T>,
+        n_discard: Option<usize>,
+    ) {
+        if let Some(x) = m {
+            self.m = x;
+        }
+        if let Some(x) = epsilon {
+            self.epsilon = x;
+        }
+        if let Some(x) = epsilon_bar {
+            self.epsilon_bar = x;
+        }
+        if let Some(x) = h_bar {
+            self.h_bar = x;
+        }
+        if let Some(x) = mu {
+            self.mu = x;
+        }
+        if let Some(x) = n_discard {
+            self.n_discard = x;
+        }
+    }
+}
+
+#[cfg(feature = "verif")]
+impl<T, B, GTarget> NUTS<T, B, GTarget>
+where
+    T: Float + ElementConversion + Element + SampleUniform + FromPrimitive,
+    B: AutodiffBackend,
+    GTarget: GradientTarget<T, B> + Sync,
+    StandardNormal: rand::distr::Distribution<T>,
+    StandardUniform: rand_distr::Distribution<T>,
+    rand_distr::Exp1: rand_distr::Distribution<T>,
+{
+    /// Verification-only access to the chains of the sampler.
+    pub fn verif_chains_mut(&mut self) -> &mut Vec<NUTSChain<T, B, GTarget>> {
+        &mut self.chains
+    }
+}
+
+/// Verification-only public wrapper of the private `find_reasonable_epsilon`.
+#[cfg(feature = "verif")]
+pub fn verif_find_reasonable_epsilon<B, T, GTarget>(
+    position: Tensor<B, 1>,
+    mom: Tensor<B, 1>,
+    gradient_target: &GTarget,
+) -> T
+where
+    T: Float + Element,
+    B: AutodiffBackend,
+    GTarget: GradientTarget<T, B> + Sync,
+{
+    find_reasonable_epsilon(position, mom, gradient_target)
+}
+
+/// Verification-only public wrapper of the private `build_tree`; returns
+/// `(position_minus, mom_minus, position_plus, mom_plus, position_prime, n_prime, s_prime, alpha, n_alpha)`.
+#[cfg(feature = "verif")]
+#[allow(clippy::too_many_arguments, clippy::type_complexity)]
+pub fn verif_build_tree<B, T, GTarget>(
+    position: Tensor<B, 1>,
+    mom: Tensor<B, 1>,
+    grad: Tensor<B, 1>,
+    logu: T,
+    v: i8,
+    j: usize,
+    epsilon: T,
+    gradient_target: &GTarget,
+    joint_0: T,
+    rng: &mut SmallRng,
+) -> (
+    Tensor<B, 1>,
+    Tensor<B, 1>,
+    Tensor<B, 1>,
+    Tensor<B, 1>,
+    Tensor<B, 1>,
+    usize,
+    bool,
+    T,
+    usize,
+)
+where
+    T: Float + Element,
+    B: AutodiffBackend,
+    GTarget: GradientTarget<T, B> + Sync,
+{
+    let r = build_tree(
+        position,
+        mom,
+        grad,
+        logu,
+        v,
+        j,
+        epsilon,
+        gradient_target,
+        joint_0,
+        rng,
+    );
+    (r.0, r.1, r.3, r.4, r.6, r.9, r.10, r.11, r.12)
+}
+
+/// Verification-only public wrapper of the private `stop_criterion`.
+#[cfg(feature = "verif")]
+pub fn verif_stop_criterion<B>(
+    position_minus: Tensor<B, 1>,
+    position_plus: Tensor<B, 1>,
+    mom_minus: Tensor<B, 1>,
+    mom_plus: Tensor<B, 1>,
+) -> bool
+where
+    B: AutodiffBackend,
+{
+    stop_criterion(position_minus, position_plus, mom_minus, mom_plus)
+}
+
+/// Verification-only public wrapper of the private `leapfrog`.
+#[cfg(feature = "verif")]
+pub fn verif_leapfrog<B, T, GTarget>(
+    position: Tensor<B, 1>,
+    mom: Tensor<B, 1>,
+    grad: Tensor<B, 1>,
+    epsilon: T,
+    gradient_target: &GTarget,
+) -> (Tensor<B, 1>, Tensor<B, 1>, Tensor<B, 1>, Tensor<B, 1>)
+where
+    T: Float + ElementConversion,
+    B: AutodiffBackend,
+    GTarget: GradientTarget<T, B>,
+{
+    leapfrog(position, mom, grad, epsilon, gradient_target)
 }
 
 #[allow(dead_code)]
@@ -805,6 +1029,21 @@ where
             .expect("type conversion from joint tensor to scalar type T to succeed");
         let n_prime = (logu < joint) as usize;
         let s_prime = (logu - T::from(1000.0).unwrap()) < joint;
+        #[cfg(feature = "verif")]
+        {
+            let mut rec = vec![
+                v as f64,
+                crate::verif::f(epsilon),
+                crate::verif::f(joint),
+                n_prime as f64,
+                s_prime as i32 as f64,
+                logp_prime.clone().into_scalar().to_f64(),
+            ];
+            rec.extend(crate::verif::tensor_to_f64(&position_prime));
+            rec.extend(crate::verif::tensor_to_f64(&mom_prime));
+            rec.extend(crate::verif::tensor_to_f64(&grad_prime));
+            crate::verif::rec("nuts.leaf", &rec);
+        }
         let position_minus = position_prime.clone();
         let position_plus = position_prime.clone();
         let mom_minus = mom_prime.clone();
@@ -908,6 +1147,13 @@ where
             }
 
             let u_build_tree: f64 = (*rng).random::<f64>();
+            #[cfg(feature = "verif")]
+            let u_build_tree: f64 = crate::verif::tap_scalar("nuts.merge_u", u_build_tree);
+            #[cfg(feature = "verif")]
+            crate::verif::rec(
+                "nuts.merge",
+                &[j as f64, n_prime as f64, n_prime_2 as f64, s_prime_2 as i32 as f64],
+            );
             if u_build_tree < (n_prime_2 as f64 / (n_prime + n_prime_2).max(1) as f64) {
                 position_prime = position_prime_2;
                 grad_prime = grad_prime_2;
